@@ -131,7 +131,13 @@ def check_emission(rep, p, name, mode):
         return ["no external solver call observed"], 0
     nq = 0
     env = ref.Env(prefix="")
-    R = z3.And(env.domain(s.variables), *[ref.rb(c, env) for c in s.constraints])
+    if p["kind"] == "tree":
+        # the documented meaning of the program's description (independent of the trees the library built)
+        zb = [env.z(v) for v in s.variables if isinstance(v, BoolVar)]
+        zi = [env.z(v) for v in s.variables if isinstance(v, IntVar)]
+        R = z3.And(env.domain(s.variables), *[trees.ref_desc(t, zb, zi) for t in p["steps"] if trees.buildable(t)])
+    else:
+        R = z3.And(env.domain(s.variables), *[ref.rb(c, env) for c in s.constraints])
     keys_expected = ["%s%d" % ("b" if isinstance(v, BoolVar) else "i", v.id) for v, k in zip(s.variables, s.is_answer_key) if k]
     first = True
     for entry, text in cap.calls:
